@@ -42,19 +42,74 @@ def rule_layprefix(run):
     kinds = [const_str(c.args[1]) for c in walk_no_nested(rd.node) if isinstance(c, ast.Call) and call_name(c) == 'parse_string' and len(c.args) == 2]
     run.check('incon1_toughreact' in kinds and 'incon1' not in kinds, 't2incon.read :: block header parsed with incon1_toughreact',
               'block header lines are parsed with %s' % [k for k in kinds if k and k.startswith('incon1')], where=rd.where())
-    # timing selector
-    sel = {}
-    for name in ('read', 'write'):
+    # timing selector: which record kind each side uses for the timing line, as a function of the simulator flavour.  The
+    # statements that compute the kind argument are interpreted for both flavours (whatever their shape: += on a base name,
+    # conditional expression, helper result)
+    from ..consteval import Interp, Obj
+    key = 't2incon :: timing kind selected by the same predicate'
+    maps = {}
+    for name, meth in (('read', 'parse_string'), ('write', 'write_value_line')):
         fi = prog.func(C + name)
-        for n in walk_no_nested(fi.node):
-            if isinstance(n, ast.If) and any(isinstance(s, ast.AugAssign) and norm(s.target) == 'timing_fmt' for s in n.body):
-                sel[name] = (norm(n.test), [norm(s.value) for s in n.body if isinstance(s, ast.AugAssign)], n)
-    if set(sel) == set(['read', 'write']):
-        good = sel['read'][:2] == sel['write'][:2]
-        if good: run.ok('t2incon :: timing kind selected by the same predicate', sel['read'][0])
-        else: run.violated('t2incon :: timing kind selected by the same predicate', 'reader selects with `%s` %s, writer with `%s` %s'
-                           % (sel['read'][0], sel['read'][1], sel['write'][0], sel['write'][1]), where=prog.func(C + 'write').where(sel['write'][2]))
-    else: run.unknown('t2incon :: timing kind selected by the same predicate', 'selector not found on %s' % sorted(set(['read', 'write']) - set(sel)))
+        calls = [c for c in walk_no_nested(fi.node) if isinstance(c, ast.Call) and call_name(c) == meth and len(c.args) == 2 and
+                 const_str(c.args[1]) not in ('incon1', 'incon1_toughreact')]
+        if len(calls) != 1: continue
+        K = calls[0].args[1]
+        knames = set(x.id for x in ast.walk(K) if isinstance(x, ast.Name))
+        # slice: statements (in document order) that bind one of those names, and the ifs that contain such statements
+        def relevant(st):
+            return any(isinstance(x, (ast.Assign, ast.AugAssign)) and any(isinstance(t, ast.Name) and t.id in knames for t in
+                       (x.targets if isinstance(x, ast.Assign) else [x.target])) for x in ast.walk(st))
+        changed = True
+        while changed:
+            changed = False
+            for x in walk_no_nested(fi.node):
+                if isinstance(x, ast.Assign) and any(isinstance(t, ast.Name) and t.id in knames for t in x.targets):
+                    more = set(y.id for y in ast.walk(x.value) if isinstance(y, ast.Name)) - knames
+                    if more: knames |= more; changed = True
+
+        def slice_of(stmts):
+            out = []
+            for st in stmts:
+                if isinstance(st, (ast.Assign, ast.AugAssign)) and relevant(st): out.append(st)
+                elif isinstance(st, ast.If) and relevant(st):
+                    out.append(ast.copy_location(ast.If(test=st.test, body=slice_of(st.body) or [ast.Pass()], orelse=slice_of(st.orelse)), st))
+                elif isinstance(st, (ast.For, ast.While, ast.With, ast.Try)):
+                    for f_ in ('body', 'orelse', 'finalbody'): out += slice_of(getattr(st, f_, []) or [])
+            return out
+        m = {}
+        for flavour in ('TOUGHREACT', 'TOUGH2', '<any other>'):
+            so = Obj(); so.attrs['simulator'] = flavour; so.attrs['timing'] = {'sumtim': 0.0}
+            try:
+                it = Interp({'self': so, 'reset': False})
+                # only the slice under conditions on the flavour is interpreted; other guards (reset, timing present) are taken as true
+                def run_slice(stmts):
+                    for st in stmts:
+                        if isinstance(st, ast.If):
+                            if any(is_self_attr(x, 'simulator') for x in ast.walk(st.test)) or any(isinstance(x, ast.Name) and x.id in it.env for x in ast.walk(st.test)):
+                                try: cond = it.expr(st.test)
+                                except AnalysisError: cond = None
+                                if cond is None: run_slice(st.body); run_slice(st.orelse)
+                                else: run_slice(st.body if cond else st.orelse)
+                            else: run_slice(st.body); run_slice(st.orelse)
+                        else: it.stmt(st)
+                run_slice(slice_of(fi.node.body))
+                m[flavour] = it.expr(K)
+            except AnalysisError as e:
+                m = None; break
+        if m is not None: maps[name] = (m, calls[0])
+    want = {'TOUGHREACT': 'timing_toughreact', 'TOUGH2': 'timing'}
+    if set(maps) != set(['read', 'write']):
+        run.unknown(key, 'timing record kind not evaluable on %s' % sorted(set(['read', 'write']) - set(maps)))
+    elif all(maps[s_][0].get(f_) == k_ for s_ in ('read', 'write') for f_, k_ in want.items()) and maps['read'][0] == maps['write'][0]:
+        run.ok(key, maps['read'][0])
+    elif all(maps[s_][0].get(f_) == k_ for s_ in ('read', 'write') for f_, k_ in want.items()):
+        run.violated(key, 'for a simulator flavour other than the two known ones the reader uses %r but the writer %r: the two sides do not select the '
+                     'timing layout by the same predicate' % (maps['read'][0].get('<any other>'), maps['write'][0].get('<any other>')),
+                     where=prog.func(C + 'write').where(maps['write'][1]))
+    else:
+        side = 'read' if any(maps['read'][0].get(f_) != k_ for f_, k_ in want.items()) else 'write'
+        run.violated(key, '%s() uses timing kind %s (by simulator flavour), expected %s: the timing line of one flavour is cut at the other\'s columns'
+                     % (side, maps[side][0], want), where=prog.func(C + side).where(maps[side][1]))
     ta, tb = fields_of(tab['timing']), fields_of(tab['timing_toughreact'])
     run.check([f.name for f in ta] == [f.name for f in tb], 't2incon_format_specification :: timing twins have the same field names',
               'timing %s vs timing_toughreact %s' % ([f.name for f in ta], [f.name for f in tb]), where='t2incons.py')
@@ -191,6 +246,30 @@ def rule_chunk(run):
     key = 't2incon.write :: values per incon2 line'
     if len(ll) != 1:
         if nlc: return        # another chunking idiom, decided by the line-count rule above
+        # stepped slices: for start in range(0, len(vals), K): write_values(vals[start: start + K], 'incon2')
+        const = dict((nm, v.value) for nm, v, st in roles.assignments(wr.node) if isinstance(v, ast.Constant) and isinstance(v.value, int))
+        def ival(e):
+            if isinstance(e, ast.Constant) and isinstance(e.value, int): return e.value
+            if isinstance(e, ast.Name): return const.get(e.id)
+            return None
+        for lp in [n for n in walk_no_nested(wr.node) if isinstance(n, ast.For) and isinstance(n.iter, ast.Call) and call_name(n.iter) == 'range' and len(n.iter.args) == 3]:
+            wv = [c for c in ast.walk(lp) if isinstance(c, ast.Call) and call_name(c) == 'write_values' and len(c.args) == 2 and const_str(c.args[1]) == 'incon2']
+            if not wv or not isinstance(lp.target, ast.Name): continue
+            step = ival(lp.iter.args[2])
+            sl = wv[0].args[0]
+            width = None
+            if isinstance(sl, ast.Subscript) and isinstance(sl.slice, ast.Slice) and sl.slice.lower is not None and sl.slice.upper is not None and \
+               norm(sl.slice.lower) == lp.target.id and isinstance(sl.slice.upper, ast.BinOp) and isinstance(sl.slice.upper.op, ast.Add):
+                u = sl.slice.upper
+                for a_, b_ in ((u.left, u.right), (u.right, u.left)):
+                    if norm(a_) == lp.target.id: width = ival(b_)
+            if step is None or width is None:
+                run.unknown(key, 'stepped-slice idiom with non-literal step / width', where=wr.where(lp)); return
+            if step == width == nf and ival(lp.iter.args[0]) == 0: run.ok(key, {'per_line': nf, 'idiom': 'range(0, len, %d)' % nf}, where=wr.where(lp))
+            else:
+                run.violated(key, 'values are written in slices of %d taken every %d, but record incon2 has %d fields: values are dropped, repeated '
+                             'or lines are short' % (width, step, nf), where=wr.where(lp))
+            return
         run.unknown(key, 'linelen not found', where=wr.where()); return
     r = compare(ll[0].value, 'min(len(vals), %d)' % nf)
     if r == 'equal': run.ok(key, {'per_line': nf}, where=wr.where(ll[0]))
